@@ -195,17 +195,18 @@ def render_upstream(v):
 class Scenario:
     """repos: list of {url, version, config: {codenames: {cn: {comp: {arches:[..], src: bool}}}, clean, byhash}}"""
 
-    def __init__(self, repos, nthreads=4, autoclean=True, retries=3, extra_lines=()):
+    def __init__(self, repos, nthreads=4, autoclean=True, retries=3, extra_lines=(), limit_rate="100m"):
         self.repos = repos
         self.nthreads = nthreads
         self.autoclean = autoclean
         self.retries = retries
         self.extra_lines = list(extra_lines)
+        self.limit_rate = limit_rate
 
     def config_text(self, base: Path):
         lines = [f"set base_path {base}", f"set nthreads {self.nthreads}", "set uvloop 0",
                  f"set _autoclean {1 if self.autoclean else 0}", f"set release_files_retries {self.retries}",
-                 "set limit_rate 100m", "set slow_rate_protection off", f"set etc_netrc {base}/auth.conf",
+                 f"set limit_rate {self.limit_rate}", "set slow_rate_protection off", f"set etc_netrc {base}/auth.conf",
                  "set wipe_size_ratio 0", "set wipe_count_ratio 0"]
         for r in self.repos:
             for cn, comps in r["config"]["codenames"].items():
@@ -259,7 +260,7 @@ VTIME_CAP = 3e5
 
 
 def run_tool(scn: Scenario, base: Path, faults=None, on_event=None, trace=False, gate=None, upstream_files=None,
-             hashseed=None, prepare=None, on_request=None):
+             hashseed=None, prepare=None, on_request=None, on_write=None):
     """Runs APTMirror.run() in this process.  faults: {url: {path: {"first": [Resp...], "rest": Resp}}}.
     upstream_files: {url: files} overrides rendering (for history steps).  Returns RunResult."""
     import apt_mirror.apt_mirror as am
@@ -302,7 +303,7 @@ def run_tool(scn: Scenario, base: Path, faults=None, on_event=None, trace=False,
     orig_aio = am.AsyncIOFileFactory
     orig_mirror = am.RepositoryMirror.mirror
     am.DownloaderFactory.for_settings = staticmethod(for_settings)
-    am.AsyncIOFileFactory = sim.make_sync_writer_factory()
+    am.AsyncIOFileFactory = sim.make_sync_writer_factory(on_write)
 
     async def mirror(self):
         r = await orig_mirror(self)
